@@ -264,21 +264,21 @@ fn eval(a: &Ast, input: Val, cx: &mut ModelCtx) -> Result<Val, Vec<String>> {
         }
         Ast::Then(f, g) => {
             let x = eval(f, input, cx).map_err(|mut p| {
-                p.insert(0, "then.first".into());
+                p.insert(0, "first".into());
                 p
             })?;
             eval(g, x, cx).map_err(|mut p| {
-                p.insert(0, "then.second".into());
+                p.insert(0, "second".into());
                 p
             })
         }
         Ast::And(f, g) => {
             let x = eval(f, input.clone(), cx).map_err(|mut p| {
-                p.insert(0, "and.first".into());
+                p.insert(0, "first".into());
                 p
             })?;
             let y = eval(g, input, cx).map_err(|mut p| {
-                p.insert(0, "and.second".into());
+                p.insert(0, "second".into());
                 p
             })?;
             Ok(Val::Pair(Box::new(x), Box::new(y)))
@@ -328,29 +328,43 @@ fn eval(a: &Ast, input: Val, cx: &mut ModelCtx) -> Result<Val, Vec<String>> {
 }
 
 // ---------------------------------------------------------------------------
-// real error -> path, through Display + source() only (MapError's fields are private)
+// real error -> path. The combinators' error types cannot be named from outside the crate
+// (private modules), so the path is read from the derived `Debug` structure of the error value
+// (`First(..)` / `Second(..)` / `MapError(inner, index)`), which — unlike the wording of the
+// `Display` messages — only changes when the error types themselves change.
 
-fn error_path(e: &(dyn StdError + 'static)) -> Vec<String> {
+fn error_path<E: fmt::Debug>(e: &E) -> Vec<String> {
+    let text = format!("{e:?}");
     let mut out = Vec::new();
-    let mut cur: Option<&(dyn StdError + 'static)> = Some(e);
-    while let Some(x) = cur {
-        let s = x.to_string();
-        let tok = if s.contains("`Then<T,>`") {
-            "then.first".to_string()
-        } else if s.contains("`Then<,U>`") {
-            "then.second".to_string()
-        } else if s.contains("`And<T,>`") {
-            "and.first".to_string()
-        } else if s.contains("`And<,U>`") {
-            "and.second".to_string()
-        } else if let Some(pos) = s.find("-th element") {
-            let digits: String = s[..pos].chars().rev().take_while(char::is_ascii_digit).collect::<String>().chars().rev().collect();
-            format!("map[{digits}]")
+    let mut s: &str = text.trim();
+    loop {
+        if let Some(rest) = s.strip_prefix("First(").and_then(|r| r.strip_suffix(')')) {
+            out.push("first".to_string());
+            s = rest.trim();
+        } else if let Some(rest) = s.strip_prefix("Second(").and_then(|r| r.strip_suffix(')')) {
+            out.push("second".to_string());
+            s = rest.trim();
+        } else if let Some(rest) = s.strip_prefix("MapError(").and_then(|r| r.strip_suffix(')')) {
+            match rest.rsplit_once(',') {
+                Some((inner, idx)) => {
+                    out.push(format!("map[{}]", idx.trim()));
+                    s = inner.trim();
+                }
+                None => {
+                    out.push(format!("unparsed:{rest}"));
+                    break;
+                }
+            }
         } else {
-            s
-        };
-        out.push(tok);
-        cur = x.source();
+            // leaf: the probe's own error, e.g. `PErr { id: 2, call: 1 }`
+            let nums: Vec<&str> = s.split(|c: char| !c.is_ascii_digit()).filter(|t| !t.is_empty()).collect();
+            if s.starts_with("PErr") && nums.len() == 2 {
+                out.push(format!("probe {} failed at probe call {}", nums[0], nums[1]));
+            } else {
+                out.push(format!("leaf:{s}"));
+            }
+            break;
+        }
     }
     out
 }
@@ -396,7 +410,7 @@ impl Input {
     }
 }
 
-fn finish<O: V, E: StdError + 'static>(r: Result<O, E>) -> Result<Val, Vec<String>> {
+fn finish<O: V, E: fmt::Debug>(r: Result<O, E>) -> Result<Val, Vec<String>> {
     match r {
         Ok(o) => Ok(o.to_val()),
         Err(e) => Err(error_path(&e)),
@@ -759,7 +773,7 @@ impl Check for C14 {
     fn assumptions(&self) -> Vec<String> {
         vec![
             "the composition-AST interpreter in c14.rs is the intended meaning of 'then / and / map / repetition'".into(),
-            "MapError's fields are private: the element index and the inner error are read through Display and Error::source()".into(),
+            "the combinators' error types live in private modules: the failing part / element is read from the derived Debug structure of the error value (First / Second / MapError(inner, index)), not from message wording".into(),
             "RepeatWith passes the inner error through unchanged (its Error type is the inner operator's)".into(),
         ]
     }
